@@ -65,6 +65,7 @@ type SQLSite struct {
 	XformHoles  int // text that went through a function outside the package before it reached the statement
 	XformBy     string
 	IsSchema    bool              // executes the embedded schema script
+	textFr      *frame            // rehomed sites whose text is computed inside the helper: the helper's frame at this call
 	evalFrame   *frame            // when set, positional bindings are evaluated in this calling context
 	posVia      map[int]*ssa.Call // positional arguments that an accessor of the package packed into the slice
 	posFr       map[int]*frame    // positional arguments with a frame of their own (statement helpers, see rehome)
@@ -73,6 +74,14 @@ type SQLSite struct {
 }
 
 // textArg: the value that holds the statement text at the site's call.
+// textFrame: the frame in which textArg() is folded when the site is looked at from K.
+func (s *SQLSite) textFrame(K *ssa.Function) *frame {
+	if s.textFr != nil && s.textFr.caller != nil && s.textFr.caller.fn == K {
+		return s.textFr
+	}
+	return topFrame(K)
+}
+
 func (s *SQLSite) textArg() ssa.Value {
 	if s.Text != nil {
 		return s.Text
@@ -227,6 +236,27 @@ func (m *Model) foldSite(site *SQLSite, args []ssa.Value) {
 						fr = topFrame(site.Fn).inline(call, call.Common().StaticCallee())
 					}
 				}
+			}
+		}
+		if dyn {
+			// ... or by a packing helper with a copy loop (`c.docBindings(key, more...)`)
+			if elems, ok := m.sliceElems(args[1], topFrame(site.Fn), 0); ok {
+				site.posFr = map[int]*frame{}
+				for _, el := range elems {
+					sv := stripConv(el.V)
+					if call, isCall := sv.(*ssa.Call); isCall {
+						if f := call.Common().StaticCallee(); f != nil && f.Pkg != nil && f.Pkg.Pkg.Path() == "database/sql" && f.Name() == "Named" {
+							if cst, isC := call.Common().Args[0].(*ssa.Const); isC && cst.Value != nil && cst.Value.Kind() == constant.String {
+								site.Named[constant.StringVal(cst.Value)] = Binding{V: call.Common().Args[1], Fr: el.Fr}
+								site.Positional = append(site.Positional, nil)
+								continue
+							}
+						}
+					}
+					site.posFr[len(site.Positional)] = el.Fr
+					site.Positional = append(site.Positional, el.V)
+				}
+				return
 			}
 		}
 		if dyn {
@@ -686,9 +716,21 @@ func (m *Model) rehome(site *SQLSite, args []ssa.Value) (res []*SQLSite) {
 	if site.Holes == 0 || site.IsSchema || len(args) == 0 || h.Parent() != nil || ast.IsExported(h.Name()) {
 		return nil
 	}
-	p, ok := stripConv(args[0]).(*ssa.Parameter)
-	if !ok || p.Parent() != h {
+	// the text is the helper's string parameter, or is computed from one inside the helper
+	p, isParam := stripConv(args[0]).(*ssa.Parameter)
+	if isParam && p.Parent() != h {
 		return nil
+	}
+	if !isParam {
+		hasStr := false
+		for _, q := range h.Params {
+			if b, ok := q.Type().Underlying().(*types.Basic); ok && b.Kind() == types.String {
+				hasStr = true
+			}
+		}
+		if !hasStr {
+			return nil
+		}
 	}
 	// the helper's results must be the statement's own results (so that Scan / RowsAffected link up)
 	if cv := site.Call.Value(); cv != nil {
@@ -724,8 +766,12 @@ func (m *Model) rehome(site *SQLSite, args []ssa.Value) (res []*SQLSite) {
 			return nil
 		}
 		clone := &SQLSite{Call: c, Fn: g, Method: site.Method, Recv: site.Recv, Named: map[string]Binding{}, Helper: h, posFr: map[int]*frame{}}
-		if tv, _, ok := fr.actual(p); ok {
-			clone.Text = tv
+		if isParam {
+			if tv, _, ok := fr.actual(p); ok {
+				clone.Text = tv
+			}
+		} else {
+			clone.Text, clone.textFr = args[0], fr
 		}
 		if rp, isP := stripConv(site.Recv).(*ssa.Parameter); isP && rp.Parent() == h {
 			if av, _, ok := fr.actual(rp); ok {
@@ -785,6 +831,16 @@ func (m *Model) sliceElems(v ssa.Value, fr *frame, depth int) (rb []Binding, rok
 			out = append(out, Binding{V: e, Fr: fr})
 		}
 		return out, true
+	case *ssa.Phi:
+		// copy-append loop: `out := <init>; for _, a := range more { out = append(out, a) }`
+		if init, src, ok := copyAppendLoop(x); ok {
+			a, ok1 := m.sliceElems(init, fr, depth+1)
+			b, ok2 := m.sliceElems(src, fr, depth+1)
+			if ok1 && ok2 {
+				return append(append([]Binding{}, a...), b...), true
+			}
+		}
+		return nil, false
 	case *ssa.MakeSlice:
 		// make([]any, 0, n): empty, to be appended to
 		if c, ok := x.Len.(*ssa.Const); ok && c.Value != nil && c.Int64() == 0 {
@@ -813,7 +869,75 @@ func (m *Model) sliceElems(v ssa.Value, fr *frame, depth int) (rb []Binding, rok
 			if rv, rfr := m.accessorResultX(x, 0, fr, true); rv != nil {
 				return m.sliceElems(rv, rfr, depth+1)
 			}
+			// a packing helper with one return (it may loop over its variadic parameter)
+			if h := x.Common().StaticCallee(); h != nil && m.inPkg(h) && h.Blocks != nil && h.Signature.Results().Len() == 1 {
+				if rets := returnsOf(h); len(rets) == 1 {
+					return m.sliceElems(rets[0].Results[0], fr.inline(x, h), depth+1)
+				}
+			}
 		}
 	}
 	return nil, false
+}
+
+// copyAppendLoop matches the loop-header phi of `for _, a := range src { out = append(out, a) }`:
+// one edge is the initial slice, the other the append of exactly the current element of src, in a
+// block that runs on every iteration of a loop that is left only through its header.
+func copyAppendLoop(phi *ssa.Phi) (init, src ssa.Value, ok bool) {
+	if len(phi.Edges) != 2 {
+		return nil, nil, false
+	}
+	for i, e := range phi.Edges {
+		app, isCall := e.(*ssa.Call)
+		if !isCall {
+			continue
+		}
+		bi, isB := app.Common().Value.(*ssa.Builtin)
+		if !isB || bi.Name() != "append" || len(app.Common().Args) != 2 || app.Common().Args[0] != ssa.Value(phi) {
+			continue
+		}
+		if !loopRunsAll(phi.Block(), app.Block()) && app.Block() != phi.Block() {
+			return nil, nil, false
+		}
+		vals, dyn := varargValues(app.Common().Args[1])
+		if dyn || len(vals) != 1 {
+			return nil, nil, false
+		}
+		el := vals[0]
+		if mi, isMI := el.(*ssa.MakeInterface); isMI {
+			el = mi.X
+		}
+		ld, isLd := el.(*ssa.UnOp)
+		if !isLd || ld.Op != token.MUL {
+			return nil, nil, false
+		}
+		ia, isIA := ld.X.(*ssa.IndexAddr)
+		if !isIA {
+			return nil, nil, false
+		}
+		// the index is the range counter of this loop: phi(-1, idx+1) tested against len(src)
+		idx, isBin := ia.Index.(*ssa.BinOp)
+		if !isBin || idx.Op != token.ADD {
+			return nil, nil, false
+		}
+		cnt, isPhi := idx.X.(*ssa.Phi)
+		if !isPhi || cnt.Block() != phi.Block() {
+			return nil, nil, false
+		}
+		lenOK := false
+		for _, ref := range *idx.Referrers() {
+			if cmp, isCmp := ref.(*ssa.BinOp); isCmp && cmp.Op == token.LSS && cmp.X == ssa.Value(idx) {
+				if lc, isCall := cmp.Y.(*ssa.Call); isCall {
+					if lb, isB := lc.Common().Value.(*ssa.Builtin); isB && lb.Name() == "len" && lc.Common().Args[0] == ia.X {
+						lenOK = true
+					}
+				}
+			}
+		}
+		if !lenOK {
+			return nil, nil, false
+		}
+		return phi.Edges[1-i], ia.X, true
+	}
+	return nil, nil, false
 }
